@@ -344,7 +344,10 @@ namespace occa {
   }
 
   occa::memory memory::cast(const dtype_t &dtype_) const {
-    occa::memory mem = slice(0);
+    assertInitialized();
+    // Share exactly the same bytes: slice(0) would round the size down
+    // to a whole number of elements of the current dtype
+    occa::memory mem(modeMemory->slice(0, modeMemory->size));
     mem.setDtype(dtype_);
     return mem;
   }
